@@ -1,56 +1,90 @@
 ------------------------------- MODULE TLCPAdv -------------------------------
 (***************************************************************************)
-(* C08.  The GM/T 0024 ECC handshake with symbolic cryptography and an     *)
-(* attacker.  Terms: sig(k, m) verifies only under pk(k); enc(pk(k), m)    *)
-(* opens only with k; prf/hash are injective.  The attacker is a peer that *)
-(* lacks some private key or presents a certificate that must not be       *)
-(* accepted, or a man in the middle rewriting plaintext handshake fields,  *)
-(* or replays signed material from another session.  Each scenario is one  *)
-(* deviation from the honest run; the handshake is stepped through the     *)
-(* standard's checks and TLC checks Authentication and Agreement.          *)
+(* C08.  The authenticated handshake with symbolic cryptography and an      *)
+(* attacker, for the GM/T 0024 ECC key exchange and the two TLS 1.2 key     *)
+(* exchanges of the standard path (RSA key transport, ECDHE_RSA), each with *)
+(* a CBC and an AEAD suite, under every client-authentication policy.       *)
+(* Terms: sig(k, m) verifies only under pk(k); enc(pk(k), m) opens only     *)
+(* with k; prf/hash are injective.  The attacker is a peer that lacks some  *)
+(* private key or presents a certificate that must not be accepted, or a    *)
+(* man in the middle rewriting plaintext handshake fields, or replays       *)
+(* signed material from another session.  Each scenario is one deviation    *)
+(* from the honest run; the handshake is stepped through the standard's     *)
+(* checks and TLC checks Authentication and Agreement.                      *)
 (***************************************************************************)
 EXTENDS Integers, Sequences, FiniteSets, TLC, Json
 
-CONSTANT Fracs
+CONSTANTS Fracs,        \* positions tried per message by the single-byte man in the middle
+          ByteAll       \* TRUE: the byte-level man in the middle runs under every protocol combination
 MsgKinds == {"CH", "SH", "CERT", "SKE", "CREQ", "CCERT", "CKE", "CV"}    \* (ServerHelloDone has no body)
 ToServerKinds == {"CH", "CCERT", "CKE", "CV"}
-CertKinds == {"good", "untrusted", "expired", "notyet", "wrongname", "rsa", "wrongusage"}
+Policies == {"none", "request", "requireany", "verifyifgiven", "require"}
+Verifying == {"verifyifgiven", "require"}      \* a presented client certificate must chain to the client CAs
+NeedCert == {"requireany", "require"}          \* a client without a certificate is refused
 VARIABLES s, pcC, pcS, step, viewC, viewS
 vars == <<s, pcC, pcS, step, viewC, viewS>>
 
-Honest == [verify |-> TRUE, signCert |-> "good", encCert |-> "good", signKey |-> "right", encKey |-> "right",
-           ske |-> "honest", cauth |-> FALSE, cliCert |-> "good", cliKey |-> "right", cv |-> "honest", mitm |-> "none",
-           msg |-> "", frac |-> 0]
-With(f, v) == [Honest EXCEPT ![f] = v]
-With2(f, v, g, w) == [Honest EXCEPT ![f] = v, ![g] = w]
-CA == [Honest EXCEPT !.cauth = TRUE]
+\* protocol combinations: GM/T 0024 ECC (two certificates, pre-master secret encrypted to the encryption certificate,
+\* ServerKeyExchange = signature over randoms and encryption certificate), TLS RSA key transport (no ServerKeyExchange),
+\* TLS ECDHE_RSA (ServerKeyExchange = signed ephemeral parameters); each with a CBC and an AEAD suite
+Combos == {<<"gm", "ecc", "CBC">>, <<"gm", "ecc", "GCM">>, <<"tls", "rsa", "CBC">>, <<"tls", "rsa", "GCM">>,
+           <<"tls", "ecdhe", "CBC">>, <<"tls", "ecdhe", "GCM">>}
+ByteCombos == IF ByteAll THEN Combos ELSE {<<"gm", "ecc", "CBC">>, <<"gm", "ecc", "GCM">>, <<"tls", "rsa", "GCM">>, <<"tls", "ecdhe", "CBC">>}
+Base(c) == [proto |-> c[1], kx |-> c[2], suite |-> c[3],
+            verify |-> TRUE, signCert |-> "good", encCert |-> "good", signKey |-> "right", encKey |-> "right",
+            ske |-> "honest", policy |-> "none", cliCert |-> "good", cliKey |-> "right", cv |-> "honest", mitm |-> "none",
+            msg |-> "", frac |-> 0]
+Dual(h) == h.proto = "gm"                  \* signing + encryption certificate
+HasSKE(h) == h.kx \in {"ecc", "ecdhe"}
+\* certificates that must not be accepted.  GMSSL: also a non-SM2 certificate and swapped key usages (both refused even
+\* with verification off: the client needs an SM2 key of the right usage); TLS: an extended key usage that excludes servers
+CertKinds(h) == {"good", "untrusted", "expired", "notyet", "wrongname"} \cup (IF Dual(h) THEN {"rsa", "wrongusage"} ELSE {"wrongeku"})
+HonestOf(h) == {h, [h EXCEPT !.verify = FALSE]} \cup {[h EXCEPT !.policy = p] : p \in Policies}
 
-Scenarios ==
-  {Honest, CA, With("verify", FALSE)} \cup
-  {With("signCert", k) : k \in CertKinds \ {"good"}} \cup
-  {With("encCert", k) : k \in CertKinds \ {"good"}} \cup
-  \* both certificates from a CA the client does not trust, the CA's own certificate appended to the message
-  {With2("signCert", "untrusted", "encCert", "untrusted_with_ca")} \cup
-  {With("signKey", "wrong"), With("encKey", "wrong")} \cup
-  {With("ske", k) : k \in {"omitted", "otherrandoms", "otherenccert", "badsig"}} \cup
-  \* a recorded ServerKeyExchange replayed in a session that shares ONE of the two randoms with the recorded one (the
-  \* attacker picks its own server random; a client may be fed a repeating random source): the signature covers both
-  {With2("signKey", "wrong", "ske", k) : k \in {"same_server_random", "same_client_random"}} \cup
-  \* the attacker of the statement: holds the encryption key but not the signing key, and omits / replays the SKE
-  {With2("signKey", "wrong", "ske", k) : k \in {"omitted", "otherrandoms"}} \cup
-  \* verification switched off: possession of the keys must still be proven
-  {[With("verify", FALSE) EXCEPT !.signKey = "wrong"], [With("verify", FALSE) EXCEPT !.encKey = "wrong"],
-   [With("verify", FALSE) EXCEPT !.signKey = "wrong", !.ske = "omitted"]} \cup
-  {[CA EXCEPT !.cliCert = k] : k \in {"untrusted", "expired", "notyet"}} \cup
-  {[CA EXCEPT !.cliKey = "wrong"], [CA EXCEPT !.cv = "othersession"]} \cup
-  \* the client sends further certificates after its own: harmless with its own key, but possession must be proven
-  \* for the FIRST certificate (the identity the server reports), not for any later one
-  {[CA EXCEPT !.cliCert = "good_then_other"], [CA EXCEPT !.cliCert = "good_then_other", !.cliKey = "of_other"]} \cup
-  {With("mitm", m) : m \in {"ch_random", "ch_suites", "ch_session", "sh_random", "sh_suite", "sh_session",
-                             "cert_swap", "cert_bit", "ske_bit", "cke_bit"}} \cup
-  {[CA EXCEPT !.mitm = m] : m \in {"creq_bit", "ccert_bit", "cv_bit"}} \cup
+ScenariosOf(h) ==
+  LET W(f, v) == [h EXCEPT ![f] = v]
+      W2(f, v, g, w) == [h EXCEPT ![f] = v, ![g] = w]
+      NV == W("verify", FALSE)
+      CA(p) == [h EXCEPT !.policy = p]
+  IN
+  HonestOf(h) \cup
+  {W("signCert", k) : k \in CertKinds(h) \ {"good"}} \cup
+  (IF Dual(h) THEN {W("encCert", k) : k \in CertKinds(h) \ {"good"}} \cup {W("encKey", "wrong"), [NV EXCEPT !.encKey = "wrong"]} \cup
+                   \* both certificates from a CA the client does not trust, the CA's own certificate appended to the message
+                   {W2("signCert", "untrusted", "encCert", "untrusted_with_ca")}
+              ELSE {W("signCert", "untrusted_with_ca")}) \cup
+  {W("signKey", "wrong"), [NV EXCEPT !.signKey = "wrong"]} \cup
+  (IF HasSKE(h) THEN
+     {W("ske", k) : k \in {"omitted", "otherrandoms", "badsig"} \cup (IF Dual(h) THEN {"otherenccert"} ELSE {})} \cup
+     \* a recorded ServerKeyExchange replayed in a session that shares ONE of the two randoms with the recorded one (the
+     \* attacker picks its own server random; a client may be fed a repeating random source): the signature covers both
+     {W2("signKey", "wrong", "ske", k) : k \in {"same_server_random", "same_client_random"}} \cup
+     \* the attacker of the statement: holds the encryption key but not the signing key, and omits / replays the SKE
+     {W2("signKey", "wrong", "ske", k) : k \in {"omitted", "otherrandoms"}} \cup
+     \* verification switched off: possession of the keys must still be proven
+     {[NV EXCEPT !.signKey = "wrong", !.ske = "omitted"]}
+   ELSE {}) \cup
+  \* client authentication under every policy: certificates that do not chain / are not valid now (refused exactly by the
+  \* verifying policies), no certificate at all (refused exactly by the requiring policies), and - whatever the policy -
+  \* a client that does not hold the key of the certificate it presents or replays another session's CertificateVerify
+  UNION {
+    {[CA(p) EXCEPT !.cliCert = k] : k \in {"untrusted", "expired", "notyet", "none"}} \cup
+    {[CA(p) EXCEPT !.cliKey = "wrong"], [CA(p) EXCEPT !.cv = "othersession"]} \cup
+    \* the client sends further certificates after its own: harmless with its own key, but possession must be proven
+    \* for the FIRST certificate (the identity the server reports), not for any later one
+    {[CA(p) EXCEPT !.cliCert = "good_then_other"], [CA(p) EXCEPT !.cliCert = "good_then_other", !.cliKey = "of_other"]}
+    : p \in Policies \ {"none"} } \cup
+  {W("mitm", m) : m \in {"ch_random", "ch_suites", "ch_session", "sh_random", "sh_suite", "sh_session", "cert_bit", "cke_bit"}
+                          \cup (IF Dual(h) THEN {"cert_swap"} ELSE {}) \cup (IF HasSKE(h) THEN {"ske_bit"} ELSE {})} \cup
+  {[CA(p) EXCEPT !.mitm = m] : m \in {"creq_bit", "ccert_bit", "cv_bit"}, p \in {"request", "require"}}
+
+ByteScenarios(h) ==
   \* one byte changed anywhere in a plaintext handshake message (position = frac/Fracs of its length)
-  {[CA EXCEPT !.mitm = "byte", !.msg = k, !.frac = f] : k \in MsgKinds, f \in 0..(Fracs - 1)}
+  {[h EXCEPT !.policy = "require", !.mitm = "byte", !.msg = k, !.frac = f] :
+      k \in (IF HasSKE(h) THEN MsgKinds ELSE MsgKinds \ {"SKE"}), f \in 0..(Fracs - 1)}
+
+Scenarios == UNION {ScenariosOf(Base(c)) : c \in Combos} \cup UNION {ByteScenarios(Base(c)) : c \in ByteCombos}
+Honest == UNION {HonestOf(Base(c)) : c \in Combos}
 
 Init == s \in Scenarios /\ pcC = "run" /\ pcS = "run" /\ step = 1
         /\ viewC = <<>> /\ viewS = <<>>
@@ -64,22 +98,30 @@ Views == LET base == <<"ch", "sh", "cert", "ske", "creq", "ccert", "cke", "cv">>
               ELSE <<Append(base, s.mitm), base>>        \* the client received something else than the server sent
 
 \* --- the standard's checks, in protocol order ---
-\* 1. client: both certificates are SM2, carry the right key usage, chain to a trusted root, are valid now, name matches
+\* 1. client: the certificate(s) fit the key exchange (GMSSL: both SM2 with the right key usage), chain to a trusted
+\*    root, are valid now, the name matches
 CertStructOK(k) == k \notin {"rsa", "wrongusage"}
 ClientAcceptsCerts == /\ CertStructOK(s.signCert) /\ CertStructOK(s.encCert)
                       /\ s.mitm # "cert_swap"                                  \* swapped order: usages do not fit
                       /\ (s.verify => s.signCert = "good" /\ s.encCert = "good")
                       /\ (s.verify => s.mitm # "cert_bit")                     \* a changed certificate does not verify
-\* 2. client: ServerKeyExchange present, signed by the signing certificate's key over this session's randoms and
-\*    the encryption certificate it received
-SkeOK == /\ s.ske = "honest" /\ s.signKey = "right"
-         /\ s.mitm \notin {"ch_random", "sh_random", "ske_bit", "cert_bit"}
-\* 3. server: the pre-master secret opens with the encryption key
-PmsOK == s.encKey = "right" /\ s.mitm # "cke_bit"
-\* 4. server (client auth required and verified): chain, validity, CertificateVerify over this transcript
-ClientAuthOK == ~s.cauth \/ (/\ s.cliCert \in {"good", "good_then_other"} /\ s.cliKey = "right" /\ s.cv = "honest"
-                                /\ s.mitm \notin {"ccert_bit", "cv_bit"}
-                                /\ Views[1] = Views[2])           \* the signature covers the transcript as the client saw it
+\* 2. client: ServerKeyExchange present, signed by the (signing) certificate's key over this session's randoms and
+\*    (GMSSL) the encryption certificate it received / (ECDHE) the ephemeral parameters; RSA key transport has none
+SkeOK == ~HasSKE(s) \/ (/\ s.ske = "honest" /\ s.signKey = "right"
+                        /\ s.mitm \notin {"ch_random", "sh_random", "ske_bit", "cert_bit"})
+\* 3. server: the pre-master secret opens with the encryption key (GMSSL) / the certificate's key (RSA); with ECDHE the
+\*    shared secret exists iff the client's share arrives unchanged
+PmsOK == /\ s.mitm # "cke_bit"
+         /\ (Dual(s) => s.encKey = "right")
+         /\ (s.kx = "rsa" => s.signKey = "right")
+\* 4. server: the client-certificate policy; possession of the key of the FIRST certificate is proven by a
+\*    CertificateVerify over this transcript whenever a certificate is presented
+ClientSends == s.policy # "none" /\ s.cliCert # "none"
+ClientAuthOK == /\ (s.policy \in NeedCert => s.cliCert # "none")
+                /\ (ClientSends => /\ (s.policy \in Verifying => s.cliCert \in {"good", "good_then_other"})
+                                   /\ s.cliKey = "right" /\ s.cv = "honest"
+                                   /\ s.mitm \notin {"ccert_bit", "cv_bit"}
+                                   /\ Views[1] = Views[2])        \* the signature covers the transcript as the client saw it
 \* 5. Finished: each side's verify_data covers its own view; they match iff the views are equal and the master secret is shared
 FinishedOK == Views[1] = Views[2] /\ PmsOK
 
@@ -94,13 +136,22 @@ Step ==
 Spec == Init /\ [][Step]_vars
 
 Done == step = 6
-\* Authentication: the client completes only with a peer that holds BOTH certified private keys and proved it in
+\* Authentication: the client completes only with a peer that holds the certified private key(s) and proved it in
 \* this session; with verification on, only under acceptable certificates
-AuthServer == (Done /\ pcC = "complete") => /\ s.signKey = "right" /\ s.encKey = "right" /\ s.ske = "honest"
+AuthServer == (Done /\ pcC = "complete") => /\ s.signKey = "right" /\ (Dual(s) => s.encKey = "right")
+                                            /\ (HasSKE(s) => s.ske = "honest")
                                             /\ (s.verify => s.signCert = "good" /\ s.encCert = "good")
-AuthClient == (Done /\ pcS = "complete" /\ s.cauth) => s.cliCert \in {"good", "good_then_other"} /\ s.cliKey = "right" /\ s.cv = "honest"
+\* the server completes with a client that presents a certificate only if the client proved possession of its key over
+\* this transcript; under a verifying policy only if the certificate chains and is valid; under a requiring policy only
+\* with a certificate
+AuthClient == (Done /\ pcS = "complete") => /\ (ClientSends => s.cliKey = "right" /\ s.cv = "honest")
+                                            /\ (ClientSends /\ s.policy \in Verifying => s.cliCert \in {"good", "good_then_other"})
+                                            /\ (s.policy \in NeedCert => s.cliCert # "none")
 \* Agreement: never both complete with different views
 Agreement == (Done /\ pcC = "complete" /\ pcS = "complete") => Views[1] = Views[2]
-HonestCompletes == (Done /\ s \in {Honest, CA, With("verify", FALSE)}) => pcC = "complete" /\ pcS = "complete"
+HonestCompletes == (Done /\ s \in Honest) => pcC = "complete" /\ pcS = "complete"
+\* the policies that do not verify accept any certificate whose key the client proves
+LaxPoliciesAccept == (Done /\ s.policy \in {"request", "requireany"} /\ s.cliCert \in {"untrusted", "expired", "notyet"}
+                      /\ [s EXCEPT !.policy = "none", !.cliCert = "good"] \in Honest) => pcS = "complete"
 Emit == Done => PrintT(<<"CASE", ToJson([case |-> s, expect |-> [client |-> pcC, server |-> pcS]])>>)
 =============================================================================
